@@ -4,7 +4,9 @@
 (* A history is a sequence of public API calls made by one process on a     *)
 (* fixed set of argument objects (byte strings, text lines, shared           *)
 (* instruction objects, shared expression trees, module-level registers)    *)
-(* and two machines m1, m2.  What a pure API may depend on is written down  *)
+(* and two machines m1, m2 (plus machines that live for one call only: a     *)
+(* call that creates its own machine is pure).  What a pure API may depend   *)
+(* on is written down  *)
 (* here once, abstractly:                                                   *)
 (*   - a pure call (dis, asm, asm_att, str, lift, expr_simp) depends on     *)
 (*     nothing but its arguments: its abstract key is <<c, <<>>>>;          *)
@@ -67,6 +69,8 @@ Menu == <<
   [c |-> "eval_abs_m1", api |-> "eval_expr",  kind |-> "read",  m |-> 1, ex |-> FALSE],  \* @32[0x2000]: an address that is already evaluated; m1 has no such cell
   [c |-> "eval_abs_m2", api |-> "eval_expr",  kind |-> "read",  m |-> 2, ex |-> FALSE],  \* the same object on m2, where the cell holds 7
   [c |-> "new_machine", api |-> "x86_machine", kind |-> "pure", m |-> 0, ex |-> FALSE],  \* builds another machine from the shared initial-register table
+  [c |-> "tmp_eval_w",  api |-> "eval_expr",  kind |-> "pure",  m |-> 0, ex |-> FALSE],  \* a machine that lives for this call only (w absent): created, eval_expr(w), released
+  [c |-> "tmp_eval_w7", api |-> "eval_expr",  kind |-> "pure",  m |-> 0, ex |-> FALSE],  \* another short-lived machine, w bound to 7: eval_expr(w + 1)
   [c |-> "evi_add_m1",  api |-> "eval_instr", kind |-> "write", m |-> 1, ex |-> FALSE],  \* eval_instr(lift(add eax, 1))
   [c |-> "evi_L_m1",    api |-> "eval_instr", kind |-> "write", m |-> 1, ex |-> FALSE],  \* eval_instr of the SHARED lifted list L (add eax, 1) on m1
   [c |-> "evi_L_m2",    api |-> "eval_instr", kind |-> "write", m |-> 2, ex |-> FALSE],  \* the same list on m2 (eax = 7: the flags are decided)
